@@ -183,31 +183,12 @@ def run_case(job):
     return rec
 
 
-def check_C18(tier):
-    chk = core.Check("C18", tier)
-    core.sut()
-    res = {}
-
-    def work(m):
-        res[m] = gen_cases(m)
-
-    ths = [threading.Thread(target=work, args=(m,)) for m in ("read", "write")]
-    for t in ths:
-        t.start()
-    for t in ths:
-        t.join()
-    cases = []
-    for m in ("read", "write"):
-        r, cs = res[m]
-        chk.add_tlc("NetcdfIO %s cases" % m, r, 'Mode="%s" invariants ShapeKept, DefaultIsFloat, MissingMasked, FuzzyInRange, PositiveChecked, RoundTripUnionMask' % m)
-        step = (4 if m == "read" else 8) if tier == "quick" else 1
-        cases += [c for i, c in enumerate(cs) if i % step == core.SEED % step]
-    chk.cov["model_cases"] = sum(len(res[m][1]) for m in res)
+def run_and_validate(chk, cases):
+    """execute the cases on the real reader/writer and let TLC (NetcdfIOTrace) judge every observation -> (records, verdicts)"""
     jobs = list(enumerate(cases))
     with Pool(core.NCPU, initializer=_init) as pool:
         records = pool.map(run_case, jobs, chunksize=max(1, len(jobs) // (core.NCPU * 8)))
     chk.cov["evaluations"] += len(records)
-    chk.cov["distinct_nontrivial"] += len([c for c in cases if any(cell[1] == 0 for g in c["grids"] for cell in g[2]) or c["dt"] or c["mv"]])
     shards = min(core.NCPU, max(1, len(records) // 800))
     tdir = core.scratch_dir("mpv-nct-")
     tcfg = os.path.join(tdir, "t.cfg")
@@ -245,6 +226,31 @@ def check_C18(tier):
         sys.stderr.write("MACHINERY FAILURE: %d verdicts for %d records\n" % (len(verdicts), len(records)))
         sys.exit(2)
     chk.cov["traces_validated_against_impl"] += len(records)
+    return records, verdicts
+
+
+def check_C18(tier):
+    chk = core.Check("C18", tier)
+    core.sut()
+    res = {}
+
+    def work(m):
+        res[m] = gen_cases(m)
+
+    ths = [threading.Thread(target=work, args=(m,)) for m in ("read", "write")]
+    for t in ths:
+        t.start()
+    for t in ths:
+        t.join()
+    cases = []
+    for m in ("read", "write"):
+        r, cs = res[m]
+        chk.add_tlc("NetcdfIO %s cases" % m, r, 'Mode="%s" invariants ShapeKept, DefaultIsFloat, MissingMasked, FuzzyInRange, PositiveChecked, RoundTripUnionMask' % m)
+        step = (4 if m == "read" else 8) if tier == "quick" else 1
+        cases += [c for i, c in enumerate(cs) if i % step == core.SEED % step]
+    chk.cov["model_cases"] = sum(len(res[m][1]) for m in res)
+    chk.cov["distinct_nontrivial"] += len([c for c in cases if any(cell[1] == 0 for g in c["grids"] for cell in g[2]) or c["dt"] or c["mv"]])
+    records, verdicts = run_and_validate(chk, cases)
     for rec in records:
         v = verdicts[rec["id"]]
         if v != "ok" and v.startswith("C18"):
@@ -261,3 +267,21 @@ def check_C18(tier):
     chk.cov["exhaustive"] = tier != "quick"
     chk.assumptions += ["MissingValue is not combined with the Positive*/Fuzzy checks (their order is not documented)", "rounding ties (x.5) are not generated for Integer reads"]
     return chk.finish()
+
+
+def missing_data_part(chk, prop, tier):
+    """C03 for the NetCDF reader: cells missing in the file (its own fill value) and cells equal to MissingValue are missing in the result, the others present"""
+    core.sut()
+    r, cs = gen_cases("read")
+    chk.add_tlc("NetcdfIO read cases (missing cells)", r, 'Mode="read": MissingMasked')
+    cases = [c for c in cs if any(cell[1] == 0 for cell in c["grids"][0][2]) and c["dt"] in ("", "Float", "Integer")]
+    step = 5 if tier == "quick" else 1
+    cases = [c for i, c in enumerate(cases) if i % step == core.SEED % step]
+    records, verdicts = run_and_validate(chk, cases)
+    chk.cov["distinct_nontrivial"] += len(cases)
+    for rec in records:
+        v = verdicts[rec["id"]]
+        if v in ("C18.Mask", "C18.Value"):
+            chk.finding("%s:netcdf-read:%s:%s" % (prop, v.split(".")[1], "MissingValue" if rec["mv"] else "file-mask"),
+                        "NetCDF EEMSRead: %s (a cell missing in the file or equal to MissingValue must be missing, any other present with its value)" % v,
+                        {"grid": rec["grids"][0], "MissingValue": rec["mv"], "DataType": rec["dt"], "observed": rec["obs"]})
